@@ -567,6 +567,7 @@ int _talloc_unlink(const void *parent, const void *ptr, const char *source_pos)
 		/* move */
 		t->parent = tref->parent;
 		add_child(t->parent, t);
+		move_memlimit(t, t->parent, tparent);
 
 		/* free ref */
 		err = _talloc_free(ref, source_pos);
@@ -689,9 +690,9 @@ void *_talloc_realloc(const void *parent, void *ptr, size_t elem_size, size_t co
 		return NULL;
 
 	/* size difference */
-	delta = size - t1->size;
-	if (delta == 0)
+	if (size == t1->size)
 		return ptr;
+	delta = total_size(size) - total_size(t1->size);
 
 	/* check limits */
 	if (!apply_memlimit(t1->parent, delta, false))
@@ -703,7 +704,7 @@ void *_talloc_realloc(const void *parent, void *ptr, size_t elem_size, size_t co
 	t1->th_flags = MAGIC_FREE;
 	t2 = cx_realloc(this_cx, t1, total_size(size));
 	if (!t2) {
-		apply_memlimit(t1->parent, -delta, false);
+		apply_memlimit(t1->parent, -delta, true);
 		t1->th_flags = old_flags;
 		return NULL;
 	}
@@ -754,7 +755,9 @@ static bool apply_memlimit_marked(struct THeader *t, ssize_t delta, bool force)
 			goto apply;
 		}
 	}
-	return true;
+
+	/* TLimit already freed, outer limits still apply */
+	return apply_memlimit(t->parent, delta, force);
 
 apply:
 	/* check limit */
@@ -816,7 +819,7 @@ static size_t memlimit_walk(struct THeader *t, int depth, int op)
 
 	/* avoid too deep recursion */
 	if (depth > TALLOC_MAX_DEPTH)
-		return t->size;
+		return total_size(t->size);
 
 	/* recurse info child_list */
 	set_flags(t, FLAG_PENDING);
@@ -826,7 +829,7 @@ static size_t memlimit_walk(struct THeader *t, int depth, int op)
 	}
 	clear_flags(t, FLAG_PENDING);
 
-	return size + t->size;
+	return size + total_size(t->size);
 }
 
 static void move_memlimit(struct THeader *t, struct THeader *new_parent, struct THeader *old_parent)
@@ -904,6 +907,13 @@ int talloc_set_memlimit(const void *ptr, size_t max_size)
 	lim->max_size = max_size;
 	lim->cur_size = 0;
 	set_flags(t, FLAG_USE_MEMLIMIT | FLAG_HAS_MEMLIMIT);
+
+	/* charge existing children, pass flag to them */
+	list_for_each(el, &t->child_list) {
+		tmp = container_of(el, struct THeader, node);
+		if (tmp->name != MEMLIMIT_NAME)
+			lim->cur_size += memlimit_walk(tmp, 1, OP_SET_MEMLIMIT);
+	}
 
 	return 0;
 }
